@@ -279,6 +279,64 @@ func checkCall(cc callCase) error {
 	if (e1 == nil) != (e2 == nil) || o1 != o2 {
 		return fmt.Errorf("%s: Id(\"p\").%s(...) renders %q, Id(\"p\").Add(%s(...)) renders %q", fn, fn, o1, fn, o2)
 	}
+	// group form of the ...Func variant: g.XFunc(cb) appends what XFunc(cb) builds and returns it
+	if recipe.HasFunc(fn) {
+		bg, bf := &recipe.Builder{}, &recipe.Builder{}
+		var outerF, wantF jen.Code
+		var retF *jen.Statement
+		var grp *jen.Group
+		if perr := hx.Safe(func() error {
+			outerF = jen.CustomFunc(jen.Options{Open: "<", Close: ">", Separator: ";"}, func(g *jen.Group) {
+				grp = g
+				g.Id("before")
+				retF = bg.CallGroup(g, fn+"Func", c)
+			})
+			wantF = jen.Custom(jen.Options{Open: "<", Close: ">", Separator: ";"}, jen.Id("before"), bf.CallFunc(fn+"Func", c))
+			return nil
+		}); perr != nil {
+			return fmt.Errorf("%sFunc group form: %v", fn, perr)
+		}
+		if err := cbCheck(bg, fn+"Func group form"); err != nil {
+			return err
+		}
+		o1, e1 := renderCode(outerF)
+		o2, e2 := renderCode(wantF)
+		if (e1 == nil) != (e2 == nil) || o1 != o2 || retF == nil {
+			return fmt.Errorf("%sFunc: group form renders %q, Add(%sFunc(...)) renders %q", fn, o1, fn, o2)
+		}
+		// Group.GoString / Render / RenderWithFile agree and repeat
+		var first [3]string
+		for i := 0; i < 2; i++ {
+			var res [3]string
+			run := func(k int, f func() (string, error)) {
+				if perr := hx.Safe(func() error {
+					out, err := f()
+					if err != nil {
+						res[k] = "ERROR"
+					} else {
+						res[k] = "OK:" + out
+					}
+					return nil
+				}); perr != nil {
+					res[k] = "ERROR"
+				}
+			}
+			run(0, func() (string, error) { return grp.GoString(), nil })
+			run(1, func() (string, error) { b := &bytes.Buffer{}; err := grp.Render(b); return b.String(), err })
+			run(2, func() (string, error) { b := &bytes.Buffer{}; err := grp.RenderWithFile(b, jen.NewFile("")); return b.String(), err })
+			if i == 0 {
+				first = res
+			} else if res != first {
+				return fmt.Errorf("%sFunc: repeated Group GoString/Render/RenderWithFile results differ", fn)
+			}
+		}
+		if first[0] != first[1] || first[1] != first[2] {
+			return fmt.Errorf("%sFunc: Group GoString, Render and RenderWithFile(NewFile(\"\")) disagree: %q / %q / %q", fn, first[0], first[1], first[2])
+		}
+		if err := cbCheck(bg, fn+"Func group form after rendering"); err != nil {
+			return err
+		}
+	}
 	// group form
 	b7, b8 := &recipe.Builder{}, &recipe.Builder{}
 	var ret *jen.Statement
